@@ -80,6 +80,7 @@ def _resolver(ctx, fi, want_bool):
         ctx.check(not risky, "C07.R1", fi, "no uncontained user call precedes the pending_acks deletion", witness=risky)
     # retry tables
     rt = [n for n in cfg.stmts((ast.Delete,)) if norm(n.ast.targets[0]) == "self.pending_retry[%s]" % seq]
+    rt += [c for c in walk_own(fi.node) if isinstance(c, ast.Call) and norm(c.func) == "self.pending_retry.pop" and c.args and norm(c.args[0]) == seq]
     ctx.check(len(rt) == 1, "C07.R1", fi, "retry table entry of the datagram is removed")
 
 
@@ -278,6 +279,7 @@ def r4(ctx):
         allres += [t for (t, p) in conds if not p and t.startswith("any(") and "is None" in t and "self.acks" in t]
         # (a list of None / True / False: `None not in self.acks` is the same test)
         allres += [t for (t, p) in conds if (p and t == "None not in self.acks") or (not p and t == "None in self.acks")]
+        allres += [t for (t, p) in conds if (not p and t in ("self.acks.count(None) > 0", "self.acks.count(None) != 0", "self.acks.count(None)")) or (p and t == "self.acks.count(None) == 0")]
         # ... or a search loop that leaves the function at the first unresolved slot and dominates the call
         for L in walk_own(fs.node):
             if isinstance(L, ast.For) and not L.orelse and norm(L.iter) == "self.acks" and isinstance(L.target, ast.Name) and len(L.body) == 1 \
@@ -301,7 +303,14 @@ def r4(ctx):
     for q in ("connection:FragmentSender.build", "connection:FragmentSender.callback"):
         f = ctx.fn(q)
         lams = [n for n in walk_own(f.node) if isinstance(n, ast.Lambda)]
-        ok = len(lams) == 1 and norm(lams[0].body).startswith("self.callback(idx, ") and any(norm(d) in ("index",) for d in lams[0].args.defaults)
+        # (whatever the bound parameter is called: a default argument whose value is the index, handed to self.callback in first place)
+        ok = False
+        if len(lams) == 1 and lams[0].args.defaults:
+            la = lams[0].args
+            bound = {a_.arg: norm(d_) for a_, d_ in zip(la.args[len(la.args) - len(la.defaults):], la.defaults)}
+            b_ = lams[0].body
+            ok = isinstance(b_, ast.Call) and norm(b_.func) == "self.callback" and len(b_.args) == 2 and isinstance(b_.args[0], ast.Name) and bound.get(b_.args[0].id) == "index" \
+                and isinstance(b_.args[1], ast.Name) and la.args and b_.args[1].id == la.args[0].arg
         ctx.check(ok, "C07.R4", f, "per-fragment callback binds its own index (default argument)", "a late-bound index would resolve the wrong fragment", witness=[norm(l) for l in lams])
     # connection_callback(False) once on connect timeout: C12.R5
 
